@@ -220,6 +220,7 @@ Section Tracker.
   Definition run (fixed : bool) (ops : list op) : st := fold_left (step fixed) ops st0.
 End Tracker.
 
+Arguments mkr {V}. Arguments oad {V}. Arguments ond {V}. Arguments nad {V}. Arguments nnd {V}. Arguments rdu {V}.
 Arguments mk {V}. Arguments AD {V}. Arguments ND {V}. Arguments DU {V}. Arguments dlen {V}.
 Arguments DesSet {V}. Arguments DesDel {V}. Arguments DesDelAll {V}. Arguments DpSet {V}.
 Arguments DpDel {V}. Arguments DpDelAll {V}. Arguments Replace {V}. Arguments IterUpd {V}. Arguments IterDel {V}.
